@@ -223,9 +223,26 @@ func (ss *sharedSet) paths() []string {
 // ---------------------------------------------------------------------------------------------
 // sequential driver: structural + differential + interleaving + sharing
 
+// trivialSubject: the original is in its default configuration and the constructor has nothing to
+// carry over or rebind - a keyless evaluator / encryptor that is only shallow-copied, a nil basis
+// extender, a view at the level the ring already has, a container of plain numbers.
+func trivialSubject(s *subject) bool {
+	switch {
+	case strings.HasSuffix(s.Ctor, ".ShallowCopy") && strings.HasSuffix(s.Cfg, "/nil"):
+		return true
+	case s.Ctor == "ring.Ring.AtLevel" && !s.NoStruct:
+		return true
+	case strings.HasPrefix(s.Ctor, "structs.") && (strings.HasSuffix(s.Cfg, "/uint64") || strings.Contains(s.Cfg, "/float64")):
+		return true
+	}
+	return false
+}
+
 func runSubject(c *eng.Ctx, s *subject) {
-	nontrivial := true
-	c.Distinct(s.key(), nontrivial)
+	c.Distinct(s.key(), !trivialSubject(s))
+	if trivialSubject(s) {
+		c.Count("subjects_trivial", 1)
+	}
 	c.Count("subjects_run", 1)
 	c.Count("ctor:"+s.Ctor, 1)
 	if s.Deep {
@@ -422,7 +439,7 @@ type raceCfg struct {
 // made before the start); all run the workload reps times simultaneously. Every result must equal
 // the sequential reference. Races are reported by the race detector (parsed by the driver).
 func runConcurrent(c *eng.Ctx, s *subject, rc raceCfg) {
-	c.Distinct(fmt.Sprintf("race/%s/g%d/p%d", s.key(), rc.Goroutines, rc.MaxProcs), true)
+	c.Distinct(fmt.Sprintf("race/%s/g%d/p%d", s.key(), rc.Goroutines, rc.MaxProcs), !trivialSubject(s))
 	c.Count("race_subjects_run", 1)
 	c.Count("race_ctor:"+s.Ctor, 1)
 	workO := s.Work
